@@ -1,6 +1,10 @@
 #!/usr/bin/env python3
 """Bookkeeping for seeded changes (mutants) written by independent sub-agents.
 
+The scratch worktrees and the agents' deliveries lived under /tmp/mut during the build phase and were removed at
+its end; `detect` and `sweep` work from the committed copies in /verif/seeded/<Cxx>-m<n>/ (patch.diff, demo.rs),
+`confirm` and `store` need a scratch worktree at /tmp/mut/<Cxx>/wt again (git -C /repo worktree add --detach ...).
+
   mutants.py confirm <Cxx> <n>     in the agent's scratch worktree: existing suite passes with the change,
                                    the demonstration fails with it and passes without it
   mutants.py detect  <Cxx> <n> [check ids...]   apply to /repo, run ./check <id> quick, undo; report VIOLATION or not
